@@ -43,16 +43,19 @@ static inline void myth_wsqueue_lock_destroy(myth_spinlock_t * lock) {
 static inline void myth_wsqueue_rbarrier(void) {
 #if !USE_LOCK
   myth_rbarrier();
+  MYTH_VERIF_EVENT("wsq.fence.r", 0, 0);
 #endif  
 }
 static inline void myth_wsqueue_wbarrier(void) {
 #if !USE_LOCK
   myth_wbarrier();
+  MYTH_VERIF_EVENT("wsq.fence.w", 0, 0);
 #endif  
 }
 static inline void myth_wsqueue_rwbarrier(void) {
 #if !USE_LOCK
   myth_rwbarrier();
+  MYTH_VERIF_EVENT("wsq.fence.rw", 0, 0);
 #endif  
 }
 
